@@ -677,6 +677,55 @@ MUTANTS = [
     Mutant("C17", "retry-table-from-names-with-a-missing-comma", "C17-R4", SU, None,
            lambda f, t: [setattr(st, "value", ast.parse("[getattr(errno, n) for n in ('EINTR', 'EAGAIN' 'EWOULDBLOCK', 'EINPROGRESS') if hasattr(errno, n)]", mode="eval").body)
                          for st in t.body if isinstance(st, ast.Assign) and u(st.targets[0]) == "ERRNO_RETRIES"]),
+    # ---- rules added after the ninth blind round (DESIGN 10.14)
+    Mutant("C01", "batch-result-converted-to-list", "C01-R7", S, "Daemon.handleRequest",
+           lambda f, t: insert_after(f, lambda s: isinstance(s, ast.Assign) and u(s) == "result = method(*vargs, **kwargs)",
+                                     stmts("if isinstance(result, collections.abc.Iterable) and not isinstance(result, (str, bytes, list, tuple, set, dict)):\n    result = list(result)")), also=("C11",)),
+    Mutant("C04", "proxy-setstate-assigns-undeclared-attribute", "C04-R6", C, "Proxy.__setstate__",
+           lambda f, t: f.body.append(stmts("self._pyroLogicalUri = core.URI(self._pyroUri)")[0])),
+    Mutant("C08", "validator-keyerror-means-nothing-to-validate", "C08-R4", S, "Daemon._handshake",
+           lambda f, t: replace_stmt(f, lambda s: isinstance(s, ast.Assign) and "validateHandshake" in u(s.value),
+                                     lambda s: stmts("try:\n    handshake_response = self.validateHandshake(conn, data['handshake'])\nexcept KeyError:\n    handshake_response = None"))),
+    Mutant("C08", "refused-connection-drained-before-close", "C08-R2", ST, "ClientConnectionJob.handleConnection",
+           lambda f, t: replace_stmt(f, lambda s: isinstance(s, ast.Expr) and u(s) == "self.csock.close()" and isinstance(_parents(f, s)[-1] if _parents(f, s) else None, ast.Try),
+                                     lambda s: stmts("while self.csock.sock.recv(4096):\n    pass") + [s])),
+    Mutant("C09", "falsy-creator-dropped-by-the-decorator", "C09-R5", S, "behavior._behavior",
+           lambda f, t: (insert_after(f, lambda s: isinstance(s, ast.If) and "invalid instance mode" in u(s), stmts("creator = instance_creator or None")),
+                         replace_expr(f, lambda e: isinstance(e, ast.Tuple) and u(e) == "(instance_mode, instance_creator)", "(instance_mode, creator)"))),
+    Mutant("C10", "stream-fetch-retried", "C10-R6", C, "_StreamResultIterator.__next__",
+           lambda f, t: replace_stmt(f, lambda s: isinstance(s, ast.Try), lambda s: [ast.For(target=ast.Name(id="attempt", ctx=ast.Store()), iter=ast.parse("range(2)", mode="eval").body, body=[s], orelse=[])])),
+    Mutant("C10", "housekeeping-closes-expired-generators", "C10-R5", S, "Daemon._housekeeping",
+           lambda f, t: replace_stmt(f, lambda s: isinstance(s, ast.Delete), lambda s: stmts("info[3].close()") + [s])),
+    Mutant("C11", "wrapper-builds-the-exception-dict-itself", "C11-R3", CO, "_ExceptionWrapper.__serialized_dict__",
+           lambda f, t: replace_expr(f, lambda e: isinstance(e, ast.Call) and "class_to_dict" in u(e.func),
+                                     "{'__class__': type(self.exception).__module__ + '.' + type(self.exception).__name__, '__exception__': True, 'args': self.exception.args, 'attributes': vars(self.exception)}"),
+           also=("C07",)),
+    Mutant("C16", "forced-register-unregisters-first", "C16-R2", S, "Daemon.register",
+           lambda f, t: insert_after(f, lambda s: isinstance(s, ast.Assign) and u(s) == "uri = self.uriFor(objectId)", stmts("if force:\n    self.unregister(objectId)"))),
+    Mutant("C18", "refusal-decided-after-the-validator", "C18-R3", S, "Daemon._handshake",
+           lambda f, t: (lambda st: (delete_stmt(f, lambda s: s is st), insert_after(f, lambda s: isinstance(s, ast.Assign) and "validateHandshake" in u(s.value), [st])))(
+               [s for s in ast.walk(f) if isinstance(s, ast.If) and u(s.test) == "denied_reason"][0]), also=("C08",)),
+    Mutant("C15", "lookup-remembers-the-last-parsed-uri", "C15-R2", NSV, "NameServer.lookup",
+           lambda f, t: insert_after(f, lambda s: isinstance(s, ast.Assign) and u(s) == "uri = core.URI(uri)", stmts("self._last_uri = uri")), also=("C19",)),
+    Mutant("C19", "lookup-returns-a-remembered-uri", "C19-R5", NSV, "NameServer.lookup",
+           lambda f, t: insert_after(f, lambda s: isinstance(s, ast.Assign) and u(s) == "uri = core.URI(uri)", stmts("self._last_uri = uri\nuri = core.URI(self._last_uri)")), also=("C15",)),
+    Mutant("C20", "gateway-keeps-proxies-between-requests", "C20-R3", GW, "process_pyro_request",
+           lambda f, t: [setattr(w.items[0], "context_expr", ast.parse("_kept_proxies.setdefault(str(uri), client.Proxy(uri))", mode="eval").body) for w in ast.walk(f)
+                         if isinstance(w, ast.With) and "client.Proxy" in u(w.items[0].context_expr)] and t.body.append(stmts("_kept_proxies = {}")[0])),
+    Mutant("C06", "header-packed-into-a-module-level-buffer", "C06-R2", P, "SendingMessage.__init__",
+           lambda f, t: (replace_stmt(f, lambda s: isinstance(s, ast.Assign) and u(s.targets[0]) == "header_data",
+                                      lambda s: stmts("struct.pack_into(_header_format, _shared_header, 0, " + ", ".join(u(a) for a in s.value.args[1:]) + ")\nheader_data = bytes(_shared_header)")),
+                         t.body.insert(len(t.body) - 1, stmts("_shared_header = bytearray(40)")[0]))),
+    Mutant("C17", "kernel-receive-timeout", "C17-R2", MX, "SocketServer_Multiplex._handleConnection",
+           lambda f, t: replace_stmt(f, lambda s: isinstance(s, ast.Expr) and "settimeout" in u(s),
+                                     stmts("csock.setsockopt(socket.SOL_SOCKET, socket.SO_RCVTIMEO, struct.pack('ll', int(config.COMMTIMEOUT), 0))")), also=("C05",)),
+    Mutant("C05", "timeout-with-partial-data-keeps-reading", "C05-R1b", SU, "receive_data",
+           lambda f, t: _timeout_keeps_reading(f), also=("C17", "C06", "C08")),
+    Mutant("C13", "worker-handed-back-before-its-slot-is-cleared", "C13-R1", ST, "Worker.run",
+           lambda f, t: (delete_stmt(f, lambda s: isinstance(s, ast.Assign) and u(s) == "self.job = None"),
+                         insert_after(f, lambda s: isinstance(s, ast.Expr) and "notify_done" in u(s), stmts("self.job = None"))), also=("C05", "C18")),
+    Mutant("C07", "stream-entry-removed-with-a-plain-del", "C07-R6", S, "DaemonObject.get_next_stream_item",
+           lambda f, t: replace_stmt(f, lambda s: isinstance(s, ast.Expr) and ".pop(streamId, None)" in u(s), stmts("del self.daemon.streaming_responses[streamId]")), also=("C10",)),
 ]
 
 
@@ -769,6 +818,18 @@ def _move_out_of_with(fn, pred):
                         lst.insert(i + 1, inner)
                         return
     raise LookupError("statement inside a with block not found")
+
+
+def _timeout_keeps_reading(f):
+    """receive_data: the socket.timeout handler of the chunk loop raises only when nothing was received yet, otherwise it sleeps and goes on"""
+    loops = [n for n in ast.walk(f) if isinstance(n, ast.While)]
+    for lp in loops[::-1]:
+        for tr in [x for x in lp.body if isinstance(x, ast.Try)]:
+            for h in tr.handlers:
+                if h.type is not None and u(h.type) == "socket.timeout" and any(isinstance(x, ast.While) for x in ast.walk(tr)):
+                    h.body = stmts("if not data:\n    raise TimeoutError('receiving: timeout')\ntime.sleep(next(delays))")
+                    return
+    raise LookupError("receive_data: timeout handler of the chunk loop not found")
 
 
 def _worker_finally(f):
